@@ -598,6 +598,10 @@ func runC14(c *h.Ctx) {
 					wantLen = 2
 				}
 				rf := rs.FieldById(0)
+				// the result field has no name: it answers to the empty key
+				if rf != nil && rs.FieldByKey("") != rf {
+					cs.Viol("tdesc:response-wrapper-empty-key", "method", n, "got-nil", rs.FieldByKey("") == nil)
+				}
 				if rs.Len() != wantLen || rf == nil {
 					cs.Viol("tdesc:response-wrapper-field", "method", n, "len", rs.Len(), "want", wantLen)
 				} else {
